@@ -1606,6 +1606,9 @@ func (t *Terminal) UpdateList(merger *Merger) {
 			t.cy = count - util.Min(count, t.maxItems()) + pos
 		}
 	}
+	// Actions bound to the events below (e.g. one:accept) run before the
+	// renderer constrains the cursor to the new list
+	t.cy = util.Constrain(t.cy, 0, util.Max(0, t.merger.Length()-1))
 	needActivation := false
 	if !t.reading {
 		switch t.merger.Length() {
